@@ -44,10 +44,6 @@ RULE = ('trust cases: 1..6 generated known_hosts lines (plain / '
         'a connection attempt was decided by the model; distinct = distinct '
         '(entries shape, target, credential) signatures')
 ASSUMPTIONS = ['known_hosts=None (explicit opt-out) is not exercised',
-               'cases where a non-default-port lookup matches only @revoked '
-               'lines while the plain-name lookup matches more are not '
-               'generated (the documented fallback rule does not say which '
-               'applies)',
                'clock for certificate windows is a fixed substitute for '
                'asyncssh.public_key.time']
 OUT_OF_REACH = ['X.509 host certificates (no pyOpenSSL)']
@@ -126,10 +122,10 @@ def model(entries, host, addr, port, cred, cb=None):
     p = port if port != 22 else None
     t, c, r = _lookup(entries, host, addr, p)
     if p and not (t or c):
+        # fallback to the plain name; revocations listed for the ported
+        # form stay in force (what the OpenSSH client does)
         t2, c2, r2 = _lookup(entries, host, addr, None)
-        if r and (t2 or c2):
-            return None, 'ported lookup matched only revoked lines'
-        t, c, r = t2, c2, r2
+        t, c, r = t2, c2, r2 | r
 
     if cb:
         # validate_host_public_key / validate_host_ca_key only widen what is
